@@ -302,8 +302,9 @@ def check_state(st, obs, switches):
     res = sps.coherence(ref, B, T, sp.getBottomJoints(), sp.getTopJoints(), sp.getLens(),
                         sp.getCurrentLocalTransform().gTM())
     for k, v in res.items():
-        if not (v <= COH * size):
-            bad.append({"clause": k, "observed": v, "tolerance": COH * size, "quantities": {"spins": ref.spins}})
+        tol = COH * size + (sps.tiny_rotation_allowance(B, T) if k == "relative_transform" else 0.0)
+        if not (v <= tol):
+            bad.append({"clause": k, "observed": v, "tolerance": tol, "quantities": {"spins": ref.spins}})
     if obs.get("verdict") is True:
         c = ref.constraints(B, T, slack=COH * size)
         for i, name in enumerate(SWITCH_NAMES):
@@ -343,10 +344,14 @@ def run(ctx):
     depth = 3 if thorough else 2
     subsets = ALL_SUBSETS if thorough else QUICK_SUBSETS
     ctx.level = "model_checking"
+    if ctx.deadline is None:            # wall-clock guard; a run that hits it reports the depth it completed, exhaustive: false
+        ctx.deadline = ctx.t0 + (800.0 if thorough else 240.0)
+    # the quick subsets first, so a capped thorough run has at least finished them
+    subsets = [b for b in QUICK_SUBSETS if b in subsets] + [b for b in subsets if b not in QUICK_SUBSETS]
     results = []
     with ctx.pool() as pool:
-        for geo in GEOS:
-            for bits in subsets:
+        for bits in subsets:
+            for geo in GEOS:
                 name = "%s|%s|%d" % (geo, bits, ctx.seed)
                 results.append((name, explorer.explore(ctx, MOD, name, depth, pool, chunk=4,
                                                        replay_cap=1500 if thorough else None)))
@@ -361,6 +366,7 @@ def run(ctx):
                    "switch subset); coherence, honesty of 'valid' and purity of queries checked after every call"
                    % (len(get_spec(results[0][0]).targets), ", seed-generic" if ctx.seed else "",
                       len(get_spec(results[0][0]).moves)))
+    cov["capped_by_wall_clock"] = bool(ctx.timed_out()) or not cov["exhaustive"]
     ctx.coverage.update(cov)
     ctx.assumptions += [
         "plate-fixed joint coordinates and the neutral relative pose are read once from the fresh platform through the public "
